@@ -543,6 +543,9 @@ def compare(I, o, a, b, env=None):
     if o == "==":
         return eq(I, a, b)
     if o == "!=":
+        if isinstance(a, SymArr) or isinstance(b, SymArr):
+            from . import nplib
+            return nplib.arr_compare(I, "!=", a, b)
         if isinstance(a, Obj):
             m, _ = a.cls.lookup("__ne__")
             if m is not None:
